@@ -320,8 +320,13 @@ pub fn check(args: &Args, prop: Prop) -> i32 {
         exit = 1;
     }
     // the systematic part: expression form x binding position x changed subset x marking style
-    let grid_n = if matches!(prop, Prop::C06 | Prop::C07) { crate::grid::count() } else { 0 };
-    let gouts = parallel_map(grid_n, args.workers, move |i| run_explicit(prop_name(prop), &crate::grid::world(seed, i), false));
+    let grid_world = move |i: u64| if prop == Prop::C11 { crate::grid::world11(seed, i) } else { crate::grid::world(seed, i) };
+    let grid_n = match prop {
+        Prop::C06 | Prop::C07 => crate::grid::count(),
+        Prop::C11 => crate::grid::count11(),
+        _ => 0,
+    };
+    let gouts = parallel_map(grid_n, args.workers, move |i| run_explicit(prop_name(prop), &grid_world(i), false));
     let mut grid_reported: Vec<String> = vec![];
     let mut grid_violating = 0u64;
     for (i, g) in gouts.iter().enumerate() {
@@ -332,7 +337,7 @@ pub fn check(args: &Args, prop: Prop) -> i32 {
         }
         if let Outcome::Violated(v) = &g.outcome {
             grid_violating += 1;
-            let mut rv = crate::grid::world(seed, i as u64);
+            let mut rv = grid_world(i as u64);
             let sig = format!("{}|{}|{}", v.class, rv["grid"]["position"], rv["grid"]["expression"]);
             if grid_reported.len() as u64 >= std::env::var("GE_MAX_REPORT").ok().and_then(|s| s.parse().ok()).unwrap_or(3) || grid_reported.contains(&sig) {
                 continue;
@@ -415,7 +420,7 @@ pub fn check(args: &Args, prop: Prop) -> i32 {
             "flushes_that_changed_the_tree": changed,
             "violating_runs_before_dedup": violations.len(),
             "run_phase_wall_s": run_phase_s,
-            "grid": {"worlds": grid_n, "violating": grid_violating, "what": "systematic sweep: every expression form of a catalogue in every binding position of a catalogue; for each such small template every non-empty subset of the expression's dependency leaves is the changed set of one update (order drawn from the seed), under five marking styles: exact tree, coarsened tree, `true`, the runtime's own tree for a batch, one change per flush (fast path where advertised)"},
+            "grid": {"worlds": grid_n, "violating": grid_violating, "what": if prop == Prop::C11 { "systematic sweep: every access-chain form and every look-alike that is not assignable, as a model: binding in every scope position (root, wx:if, keyed/unkeyed/nested/renamed loops, loops over scalars, literal lists, conditional lists and script-module lists, a model-bound child); 8 rounds of seeded data toggles, splices and reorders alternating with writes through the live listeners" } else { "systematic sweep: every expression form of a catalogue in every binding position of a catalogue; for each such small template every non-empty subset of the expression's dependency leaves is the changed set of one update (order drawn from the seed), under five marking styles: exact tree, coarsened tree, `true`, the runtime's own tree for a batch, one change per flush (fast path where advertised)" }},
             "distinct_measure": "distinct (template sources, op-kind sequence, updateMode) triples; event-log hashes are compared across processes by `./check selftest determinism`",
         }),
     });
